@@ -448,6 +448,9 @@ fn box_alphabet() -> Vec<(f32, f32)> {
     }
     v.push((-0.5, -0.25));
     v.push((0.25, 0.75));
+    // the NaN interval and an unbounded one are legitimate boxes too
+    v.push((f32::NAN, f32::NAN));
+    v.push((f32::NEG_INFINITY, f32::INFINITY));
     v
 }
 
@@ -583,7 +586,7 @@ impl Check for C20 {
     }
     fn meta(&self, tier: Tier) -> Meta {
         Meta {
-            rule: "case = program; programs: every DAG with 1..=n nodes over leaves {X,Y,0.5} and ops {min,max,and,or,neg} (0..n choice clauses, reg/reg and reg/imm forms, shared operands), chains of k clauses for k in {0,1,2,3,7,8,9,63,64,65,199,200} x 6 kind patterns, and a no-choice program; each evaluated by VM<255>, VM<3>, JIT point evaluators at every point of {-1,0,-0,0.25,0.5,1,NaN}^2 (chains: a 48-point sweep) and by VM and JIT interval evaluators on every box over endpoints {-1,0,0.5,1} (+2 interior boxes) per axis with all nodes exported; oracle: a reference interpreter over the register tape gives the operand values of every clause in tape order (point), the evaluator's own operand intervals are read from the exported outputs (interval); non-trivial = program has at least one choice clause".into(),
+            rule: "case = program; programs: every DAG with 1..=n nodes over leaves {X,Y,0.5} and ops {min,max,and,or,neg} (0..n choice clauses, reg/reg and reg/imm forms, shared operands), chains of k clauses for k in {0,1,2,3,7,8,9,63,64,65,199,200} x 6 kind patterns, and a no-choice program; each evaluated by VM<255>, VM<3>, JIT point evaluators at every point of {-1,0,-0,0.25,0.5,1,NaN}^2 (chains: a 48-point sweep) and by VM and JIT interval evaluators on every box over endpoints {-1,0,0.5,1} (+2 interior boxes, the NaN interval and [-inf,inf]) per axis with all nodes exported; oracle: a reference interpreter over the register tape gives the operand values of every clause in tape order (point), the evaluator's own operand intervals are read from the exported outputs (interval); non-trivial = program has at least one choice clause".into(),
             bounds: match tier {
                 Tier::Quick => "DAG nodes <= 2; chains up to 200 clauses".into(),
                 Tier::Thorough => "DAG nodes <= 3; chains up to 200 clauses".into(),
